@@ -95,8 +95,10 @@ Definition known (c : case) : bool :=
   | CSpec _ _ _ => false
   end.
 
-Definition spec_fail_new (c : case) : bool := spec_fail c && negb (known c).
-Definition spec_fail_known (c : case) : bool := spec_fail c && known c.
+(* a failure is the recorded finding only if the validator model (which reproduces the three findings) predicts exactly what
+   the implementation did on this case (DESIGN section 6, rule 2) *)
+Definition spec_fail_new (c : case) : bool := spec_fail c && negb (known c && negb (mismatch c)).
+Definition spec_fail_known (c : case) : bool := spec_fail c && known c && negb (mismatch c).
 
 Definition nontrivial (c : case) : bool :=
   match c with
